@@ -159,21 +159,21 @@ Section Trace.
     2:{ split; [reflexivity|split; [intros _; reflexivity|discriminate]]. }
     split; [|split; [discriminate|intros _]].
     - destruct (negb (existsb (Z.eqb (h_exch (p_hdr m))) response_exchanges)); [reflexivity|].
-      destruct (handle_response P (inner P (set_my_id P s (my_id P s + 1))) m) as [i' [[[exch body]|] reset|]].
+      destruct (handle_response P (inner P (set_my_id P s (my_id P s + 1))) m) as [i' [[[exch body]|] reset|reset']].
       + destruct reset; reflexivity.
       + set (s2 := if reset then _ else _).
         assert (Hp : peer_id P s2 = peer_id P s) by (unfold s2; destruct reset; reflexivity).
         destruct (Z.eqb (state P s2) ST_ESTABLISHED); [|exact Hp].
         destruct (run_pending_ids (pending P s2) s2 now) as [A _]. rewrite A. exact Hp.
-      + reflexivity.
+      + destruct reset'; reflexivity.
     - destruct (negb (existsb (Z.eqb (h_exch (p_hdr m))) response_exchanges)); [left; reflexivity|].
-      destruct (handle_response P (inner P (set_my_id P s (my_id P s + 1))) m) as [i' [[[exch body]|] reset|]].
+      destruct (handle_response P (inner P (set_my_id P s (my_id P s + 1))) m) as [i' [[[exch body]|] reset|reset']].
       + destruct reset; [right|left]; reflexivity.
       + set (s2 := if reset then _ else _).
         assert (Hm : my_id P s2 = my_id P s + 1 \/ my_id P s2 = 0) by (unfold s2; destruct reset; [right|left]; reflexivity).
         destruct (Z.eqb (state P s2) ST_ESTABLISHED); [|exact Hm].
         destruct (run_pending_ids (pending P s2) s2 now) as [_ Bq]. rewrite Bq. exact Hm.
-      + left. reflexivity.
+      + destruct reset'; [right|left]; reflexivity.
   Qed.
 
   Lemma process_response_emits_current_id s m now s' d :
@@ -182,7 +182,7 @@ Section Trace.
     unfold process_response.
     destruct (res_id_unexpected (h_id (p_hdr m)) (peer_id P s) (my_id P s)); [discriminate|].
     destruct (negb (existsb (Z.eqb (h_exch (p_hdr m))) response_exchanges)); [discriminate|].
-    destruct (handle_response P (inner P (set_my_id P s (my_id P s + 1))) m) as [i' [[[exch body]|] reset|]].
+    destruct (handle_response P (inner P (set_my_id P s (my_id P s + 1))) m) as [i' [[[exch body]|] reset|reset']].
     - destruct reset; cbn; intros H; inversion H; subst; cbn; split; reflexivity.
     - set (s2 := if reset then _ else _). destruct (Z.eqb (state P s2) ST_ESTABLISHED); [|discriminate].
       apply run_pending_emits_current_id.
